@@ -118,6 +118,11 @@ def ax_split(doc):
     doc["ev"][0].append((m, F(3, 4) if p != F(3, 4) else F(1, 4), ch, "n0", None))
 
 
+def ax_strings_full(doc):
+    # text fields that fill their whole width (no terminating NUL inside the field)
+    doc["header"].update(title="T" * 63 + "x", artist="A" * 31 + "y", creator="C" * 31 + "z", ojm_file="o" * 28 + ".ojm")
+
+
 def ax_strings(doc):
     doc["header"].update(title="A longer title, with punctuation!", artist="X", creator="", ojm_file="song.ojm", level=(1, 20, 105, 0), song_id=100001, genre=10)
 
@@ -146,7 +151,7 @@ AXES = [
     ("autoplay", [("on", ax_flag("autoplay"))]),
     ("split", [("on", ax_split)]),
     ("order", [("tempo_last", ax_flag("order", "tempo_last")), ("by_channel", ax_flag("order", "by_channel"))]),
-    ("strings", [("on", ax_strings)]),
+    ("strings", [("on", ax_strings), ("full-width", ax_strings_full)]),
 ]
 
 
